@@ -50,9 +50,9 @@ def transfer(src: Rec, dst: Rec, own: tuple[str, ...]):
 
 class GenCheck:
     def __init__(self, pid: str, own: tuple[str, ...], opts: dict, scheds=("eager",), nontrivial_counter: str = "", quick=(96, 150), thorough=(6000, 300),
-                 mode: str = "simulate", library: bool = False):
+                 mode: str = "simulate", library: bool = False, cond: bool = False):
         self.pid, self.own, self.opts, self.scheds, self.ntc, self.mode = pid, own, opts, scheds, nontrivial_counter, mode
-        self.library = library
+        self.library, self.cond = library, cond
         self.tiers = {"quick": quick, "thorough": thorough}
 
     def shards(self, tier, seed):
@@ -61,6 +61,9 @@ class GenCheck:
         if self.mode == "c11":
             per = 12 if tier == "quick" else 150
         out = [{"seed": seed, "first": i, "n": min(per, n - i), "cycles": cycles} for i in range(0, n, per)]
+        if self.cond:
+            ncond = 12 if tier == "quick" else 200
+            out += [{"seed": seed, "cond": True, "first": i * 5, "n": 5, "cycles": 300 if tier == "quick" else 800} for i in range(ncond)]
         if self.library:
             nlib = 16 if tier == "quick" else 160
             out += [{"seed": seed, "lib": True, "first": i * 3, "n": 3, "cycles": 250 if tier == "quick" else 600} for i in range(nlib)]
@@ -106,7 +109,21 @@ class GenCheck:
             transfer(san, rec, self.own)
             rec.count("library_histories")
 
+    def run_cond_shard(self, spec, rec: Rec):
+        """condition() designs of the cond profile (C12's generator): ready-dependencies that the manager replaces by merged-transaction
+        enables are only observable there."""
+        from ..checks import c12
+        for i in range(spec["first"], spec["first"] + spec["n"]):
+            rnd = random.Random(f"{self.pid}:cond:{spec['seed']}:{i}")
+            sub = Rec(self.pid, rec.shard)
+            c12.run_one(sub, rnd, i, spec["cycles"])
+            sub.counters = type(sub.counters)({("cond_profile_" + k): v for k, v in sub.counters.items()})
+            sub.distinct = set()
+            transfer(sub, rec, self.own)
+
     def run_shard(self, spec, rec: Rec):
+        if spec.get("cond"):
+            return self.run_cond_shard(spec, rec)
         if spec.get("lib"):
             return self.run_library_shard(spec, rec)
         for i in range(spec["first"], spec["first"] + spec["n"]):
